@@ -178,8 +178,8 @@ def gen_op(rng, cid, ev):
 def register(case, ds, nm):
     metrics = {}
     for e in case["reg"]:
-        ds[e["var"]] = model.make_array(e, nm)
-        metrics.setdefault(tuple(nm(a) for a in e["key"]), []).append(e["var"])
+        ds[nm(e["var"])] = model.make_array(e, nm)
+        metrics.setdefault(tuple(nm(a) for a in e["key"]), []).append(nm(e["var"]))
     return metrics
 
 
